@@ -1,5 +1,6 @@
 import RSVerif.Model.Handoff
 import RSVerif.Spec.Handoff
+import RSVerif.Drive.C01
 /-
 Line protocol for C05 (case kinds: see go/harness/c05.go).
 
@@ -265,6 +266,17 @@ def handle (line : String) : String :=
   | ["reply", inRunid, inOff, stream] =>
     match inOff.toInt?, parseBytes stream with
     | some inOff, some stream => replyLine inRunid inOff stream
+    | _, _ => "badcase"
+  | ["handover", file, cmds, _, _] =>
+    -- consumer side (utils.NewRDBLoader = C01's loader pipeline) on the RDB followed by the command bytes, whatever
+    -- the delivery: what it has taken when its channel closes, and what is left for the command parser
+    -- (for a well-formed file: exactly the file, exactly the commands — Properties.C01.parse_exact, which holds for ANY bytes behind the checksum)
+    match ofHex file, parseBytes cmds with
+    | some file, some cmds =>
+      let all := file ++ cmds
+      match Rdb.run Drive.C01.pfSimple true (16 * 1024 * 1024) Generated.rdbFromVersion all with
+      | (es, .ok rest) => s!"taken={all.length - rest.length} entries={es.length} rest={showBytes rest}"
+      | (_, .error _) => "abort"
     | _, _ => "badcase"
   | ["iocopy", max, buflen, data, wish] =>
     match max.toInt?, buflen.toNat?, parseBytes data, wish.toNat? with
